@@ -4,6 +4,7 @@ package c08
 import (
 	"encoding/json"
 	"fmt"
+	"os"
 	"strings"
 	"testing"
 
@@ -104,6 +105,82 @@ func convert(o *sut.Outcome, p *model.Project) (root *jsonv.Value, ctx *oas.Ctx,
 	return r, ctx, nil
 }
 
+var (
+	tripleFile  *os.File
+	tripleCount int
+)
+
+// dumpTriple writes a sample of (schema, components, instance, verdict) to $VERIF_OUT for the python
+// jsonschema cross-check of the validator (thorough tier; see tools/oas_crosscheck.py)
+func dumpTriple(schema string, types map[string]string, self bool, instance string, valid bool) {
+	out := os.Getenv("VERIF_OUT")
+	if out == "" || !ev.Thorough() || tripleCount >= 1500 {
+		return
+	}
+	if tripleFile == nil {
+		i, _ := ev.Shard()
+		f, err := os.Create(fmt.Sprintf("%s/oas-triples-%d.jsonl", out, i))
+		if err != nil {
+			return
+		}
+		tripleFile = f
+	}
+	comps := map[string]json.RawMessage{}
+	for n, t := range types {
+		if json.Valid([]byte(t)) {
+			comps[strings.TrimPrefix(n, "@")] = json.RawMessage(t)
+		}
+	}
+	if self {
+		comps["main"] = json.RawMessage(schema)
+	}
+	if !json.Valid([]byte(schema)) || !json.Valid([]byte(instance)) {
+		return
+	}
+	b, _ := json.Marshal(map[string]any{"schema": json.RawMessage(schema), "components": comps, "instance": json.RawMessage(instance), "valid": valid})
+	tripleFile.Write(append(b, '\n'))
+	tripleCount++
+}
+
+// perturb derives a few instances from a valid one: extra member, dropped member, changed kind
+func perturb(v *jsonv.Value) []*jsonv.Value {
+	var out []*jsonv.Value
+	str := func(s string) *jsonv.Value { return &jsonv.Value{Kind: jsonv.String, Str: s} }
+	switch v.Kind {
+	case jsonv.Object:
+		extra := &jsonv.Value{Kind: jsonv.Object, Keys: append(append([]string{}, v.Keys...), "zzz_extra"), Vals: append(append([]*jsonv.Value{}, v.Vals...), str("x"))}
+		out = append(out, extra)
+		if len(v.Keys) > 0 {
+			out = append(out, &jsonv.Value{Kind: jsonv.Object, Keys: v.Keys[1:], Vals: v.Vals[1:]})
+			for i := range v.Vals {
+				for _, sub := range perturb(v.Vals[i]) {
+					c := &jsonv.Value{Kind: jsonv.Object, Keys: v.Keys, Vals: append([]*jsonv.Value{}, v.Vals...)}
+					c.Vals[i] = sub
+					out = append(out, c)
+					break
+				}
+			}
+		}
+	case jsonv.Array:
+		out = append(out, &jsonv.Value{Kind: jsonv.Array, Items: append(append([]*jsonv.Value{}, v.Items...), &jsonv.Value{Kind: jsonv.Object, Keys: []string{"zzz"}, Vals: []*jsonv.Value{str("x")}})})
+		if len(v.Items) > 0 {
+			out = append(out, &jsonv.Value{Kind: jsonv.Array, Items: v.Items[1:]})
+		}
+	case jsonv.String:
+		out = append(out, &jsonv.Value{Kind: jsonv.Number, Num: "123"}, str(v.Str+"-zzz"), str(""))
+	case jsonv.Number:
+		out = append(out, str("zzz"), &jsonv.Value{Kind: jsonv.Number, Num: "1000001"}, &jsonv.Value{Kind: jsonv.Number, Num: "-1000001"})
+	case jsonv.Bool:
+		out = append(out, str("zzz"), &jsonv.Value{Kind: jsonv.Null})
+	case jsonv.Null:
+		out = append(out, str("zzz"), &jsonv.Value{Kind: jsonv.Number, Num: "0"})
+	}
+	if len(out) > 4 {
+		out = out[:4]
+	}
+	return out
+}
+
 func oasVerdict(kind string, err error, detail string) *ev.Verdict {
 	e := err.(*oas.Err)
 	kw := e.Keyword
@@ -161,8 +238,15 @@ func oracle(c Case) *ev.Verdict {
 		}
 	}
 	// (4) the example is an instance
+	dumpTriple(o.OpenAPI, o.TypeOpenAPI, p.Self, o.Example, oas.Validate(inst, root, "#", ctx) == nil)
 	if err := oas.Validate(inst, root, "#", ctx); err != nil {
 		return oasVerdict("example-invalid", err, "example "+o.Example+"\nschema "+o.OpenAPI+"\n"+tp.String())
+	}
+	// instances that are probably NOT valid, only for the validator cross-check (both verdicts wanted)
+	if ev.Thorough() {
+		for _, m := range perturb(inst) {
+			dumpTriple(o.OpenAPI, o.TypeOpenAPI, p.Self, m.Canon(), oas.Validate(m, root, "#", ctx) == nil)
+		}
 	}
 	// every registered type's own example against its own conversion
 	// (types are schemas too; their conversions are the components)
@@ -213,6 +297,7 @@ func oracle(c Case) *ev.Verdict {
 				return ev.V("example:invalid-json", "Example() of a variation is not JSON: %.300s\n%s", o2.Example, qt)
 			}
 			nvar++
+			dumpTriple(o.OpenAPI, o.TypeOpenAPI, p.Self, o2.Example, oas.Validate(inst2, root, "#", ctx) == nil)
 			if err := oas.Validate(inst2, root, "#", ctx); err != nil {
 				return oasVerdict("variation-invalid", err, fmt.Sprintf("the schema's own rules accept %s in place of %s, but the instance %s is not valid for the ORIGINAL schema's conversion %s\n%s", cand, scalars[si].Lit, o2.Example, o.OpenAPI, tp))
 			}
